@@ -10,6 +10,9 @@ import Driver.FilterOps
 import Driver.ValidOps
 import Driver.CapsOps
 import Driver.LoadOps
+import Driver.CorrOps
+import Driver.DetOps
+import Driver.SerOps
 open Lean Driver
 
 def dispatch (op : String) (j : Json) : Except String Json :=
@@ -36,6 +39,11 @@ def dispatch (op : String) (j : Json) : Except String Json :=
   | "valid.case" => validCase j
   | "caps.case" => capsCase j
   | "load.case" => loadCase j
+  | "corr.case" => CorrOps.corrCase j
+  | "corr.timespan" => CorrOps.corrTimespan j
+  | "det.case" => detCase j
+  | "ser.case" => serCase j
+  | "ser.obj" => serObj j
   | "ping" => pure (Json.mkObj [("pong", true)])
   | _ => throw s!"unknown op {op}"
 
